@@ -16,7 +16,9 @@ func (c *Ctx) isFreshRef(ref Term) bool { return c.freshRefs[ref.S] }
 
 // covered: location (fam, ref, [lo,hi)) is inside the footprint; lo/hi nil means the whole row.
 func (c *Ctx) covered(fam string, ref Term, lo, hi *Term) Term {
-	alts := []Term{app(SBool, "<", c.allocEntry, ref)}
+	// an object allocated after entry, or no object at all (the contents of a nil slice: a write through it is a nil
+	// dereference and has its own obligation)
+	alts := []Term{app(SBool, "<", c.allocEntry, ref), Eq(ref, Term{"0", SInt})}
 	for _, t := range c.footprint {
 		if t.ghost != nil || t.fam != fam {
 			continue
